@@ -1239,6 +1239,16 @@ def check_Round_half (α : Type) [Num α] [Sample α] : Res :=
     | none => false
     | some v => v.eq ⟨1, -1⟩) fun _ => s!"half={sh (Num.half : α)}"
 
+/-- `Round.SubModel.sub` (`Lemmas/NonNegRound.lean`): the same relative-error law for `−`. -/
+@[specialize] def check_Round_sub (guarded : Bool) (grid : Array α) : Res :=
+  check_Round_bin (α := α) Num.sub Dy.sub guarded grid
+
+/-- `Round.SubModel.quarter`: `val Num.quarter = 1/4` exactly. -/
+def check_Round_quarter (α : Type) [Num α] [Sample α] : Res :=
+  ({} : Res).add (match dyOf? (Num.quarter : α) with
+    | none => false
+    | some v => v.eq ⟨1, -2⟩) fun _ => s!"quarter={sh (Num.quarter : α)}"
+
 /-- `lt : ∀ a b, fin a → fin b → (Num.lt a b = true ↔ val a < val b)` -/
 @[specialize] def check_Round_lt (grid : Array α) : Res := Id.run do
   let mut r : Res := {}
